@@ -46,6 +46,9 @@ def worlds(n, keyopts="{1}", anchors="{{1}}"):
 ALLQ = "QueryKinds"
 SECURE3 = '{[n |-> 3, signed |-> <<TRUE, TRUE, TRUE>>, link |-> <<"none", "ds", "ds">>, keys |-> <<1, 1, 1>>, anchors |-> {1}]}'
 ISLAND3 = '{[n |-> 3, signed |-> <<TRUE, TRUE, TRUE>>, link |-> <<"none", "ds", "nods">>, keys |-> <<1, 1, 1>>, anchors |-> {1}]}'
+# the zone-cut probe (DS at a name that is no apex) of the leaf zone answered from an NSEC3-signed twin
+NSEC3_3 = ('{[n |-> 3, signed |-> <<TRUE, TRUE, TRUE>>, link |-> <<"none", "ds", "ds">>, keys |-> <<1, 1, 1>>, anchors |-> {1}, '
+           'nsec3 |-> TRUE]}')
 UNSUP3 = '{[n |-> 3, signed |-> <<TRUE, TRUE, FALSE>>, link |-> <<"none", "ds", "dsunsup">>, keys |-> <<1, 1, 1>>, anchors |-> {1}]}'
 TWOKEY2 = '{[n |-> 2, signed |-> <<TRUE, TRUE>>, link |-> <<"none", "ds">>, keys |-> <<2, 2>>, anchors |-> {1}]}'
 # name, worlds, queries, fault counts
@@ -53,6 +56,7 @@ GEN_QUICK = [
     ("single23", worlds(2) + " \\cup " + worlds(3, anchors="{{1}, {1, 3}}"), ALLQ, "{0, 1}"),
     ("keys2", worlds(2, "{1, 2}", "{{1}, {1, 2}}"), ALLQ, "{0, 1}"),
     ("double_core", SECURE3 + " \\cup " + ISLAND3, ALLQ, "{2}"),
+    ("nsec3_probe", NSEC3_3, '{"pos", "cname"}', "{1, 2}"),
 ]
 GEN_THOROUGH = [
     ("single23", worlds(2) + " \\cup " + worlds(3, anchors="{{1}, {1, 3}}"), ALLQ, "{0, 1}"),
@@ -61,6 +65,7 @@ GEN_THOROUGH = [
     ("double3", worlds(3), ALLQ, "{2}"),
     ("double2", worlds(2, "{1, 2}", "{{1}, {1, 2}}"), ALLQ, "{2}"),
     ("double_anchor3", worlds(3, anchors="{{1, 3}}"), '{"pos", "nx"}', "{2}"),
+    ("nsec3_probe", NSEC3_3, ALLQ, "{1, 2}"),
 ]
 
 MC_QUICK = ["MC_Chain", "MC_Chain_keys"]
@@ -123,7 +128,7 @@ def classify(what, item, c):
               "faults": "+".join(sorted(kind(f) for f in faults)) or "none"}
     for f in faults:
         fields[kind(f)] = True
-        if f["op"].startswith("forge") or f["op"] in ("swapKey", "childSide", "wildSub", "reorder", "foreignDs"):
+        if f["op"].startswith("forge") or f["op"] in ("swapKey", "childSide", "wildSub", "reorder", "foreignDs", "childKeyVouches"):
             fields["op:" + f["op"]] = True
     if what in ("secure-not-allowed", "neg-secure-not-allowed", "ad-not-allowed"):
         if item is not None and item not in ITEMS:
@@ -148,7 +153,7 @@ def _replay_shard(args):
 
 
 def run(res, tier, seed):
-    res.rule = ("R: case = (world, query, fault set) run in two delivery modes; T: case = (random world of 2-5 zones, query, "
+    res.rule = ("R: case = (world, query, fault set) run in three delivery modes (raw, pool, owner names in upper case); T: case = (random world of 2-5 zones, query, "
                 "<= 3 faults, delivery mode); non-trivial = at least one fault, or a world with an insecure / broken link; "
                 "distinct by content hash")
     res.assumptions = [
@@ -236,7 +241,7 @@ def run(res, tier, seed):
                 inp = {"world": c["world"], "q": c["q"], "faults": sorted(kind(f) + f"@{f['z']}" for f in c["faults"])}
                 if c["faults"] or c["best"] != "Secure":
                     res.nontrivial.add(vlib.digest(inp))
-                for mode, obs in zip(("raw", "pool"), v["observed"]):
+                for mode, obs in ((o["mode"], o) for o in v["observed"]):
                     res.evaluations += 1
                     # work done for one client query (informational: the statement does not bound it)
                     if obs["asked"] > work["max_upstream_queries"]:
